@@ -40,8 +40,17 @@ func NewEval(opts CompilerOptions, globals Object, args ...Object) *Eval {
 
 // Run compiles, runs given script and returns last value on stack.
 func (r *Eval) Run(ctx context.Context, script []byte) (Object, *Bytecode, error) {
+	numModules := r.moduleStore.count
 	bytecode, err := compileScript(script, &r.Opts, &r.moduleStore)
 	if err != nil {
+		// forget the modules the failed script added: their constants are
+		// discarded with the script's bytecode.
+		for name, item := range r.moduleStore.store {
+			if item.moduleIndex >= numModules {
+				delete(r.moduleStore.store, name)
+			}
+		}
+		r.moduleStore.count = numModules
 		return nil, nil, err
 	}
 
